@@ -9,7 +9,7 @@ _COST_FIELDS = lambda pre: {f"{pre}": "obj:~BaseCost", f"{pre}._is_fitted": "boo
 # ------------------------------------------------------------------------------------------------ ChangeScore
 contract(
     target=FIT, self_class="ChangeScore", variant="ChangeScore",
-    params={"self": "obj:ChangeScore", "self.cost": "obj:~BaseCost", "X": "real[n,p]", "y": "none"},
+    params={"self": "obj:ChangeScore", "self._is_fitted": "bool", "self._X": "any", "self.cost": "obj:~BaseCost", "X": "real[n,p]", "y": "none"},
     modifies={"self._X": "=X", "self._is_fitted": "=True", "self.cost._X": "=X", "self.cost._is_fitted": "=True",
               "self.cost.ghost_tok": "int", "self.cost.ghost_n": "=n", "self.cost.ghost_p": "=p", "self.cost.ghost_q": "int"},
     returns="=self",
@@ -49,7 +49,7 @@ contract(
 )
 contract(
     target=FIT, self_class="Saving", variant="Saving",
-    params={"self": "obj:Saving", "self.baseline_cost": "obj:~BaseCost", "self.optimised_cost": "obj:~BaseCost", "X": "real[n,p]", "y": "none"},
+    params={"self": "obj:Saving", "self._is_fitted": "bool", "self._X": "any", "self.baseline_cost": "obj:~BaseCost", "self.optimised_cost": "obj:~BaseCost", "X": "real[n,p]", "y": "none"},
     modifies={"self._X": "=X", "self._is_fitted": "=True"},
     returns="=self",
     ensures={"fitted": "self._is_fitted == True and self.baseline_cost._is_fitted == True and self.optimised_cost._is_fitted == True",
